@@ -737,6 +737,7 @@ class Table:
 
 
 # ----------------------------------------------------------------------------
+COUNT_ATTRS = {'nLayers', 'nlayers', '_nlayers', 'nLevels', '_ngrid', 'ngrid', '_ngauss', 'ngauss', '_total_cia'}
 _FULLARGSPEC = ('args', 'varargs', 'varkw', 'defaults', 'kwonlyargs', 'kwonlydefaults', 'annotations')
 NUMERIC_MODULES = {'np', 'numpy', 'math', 'numba', 'scipy', 'sp'}
 ERASED_CALLS = {'float', 'float64', 'asarray', 'asanyarray', 'array', 'ravel', 'flatten',
@@ -1187,6 +1188,35 @@ class Conv:
             return t.rewrite(base, pick, _memo=None)
         return t.atom('idx', tuple([base] + conv))
 
+    def _integral(self, rf):
+        """rf is built from counts and indices only: len(...), searchsorted / argmax / argmin results, loop indices,
+        int(...) and whole numbers, combined with + - *"""
+        t = self.tab
+        if not isinstance(rf, RF) or not p_is_const(rf.den) or rf.den.get(ONE) != 1:
+            return False
+        for mono, c in rf.num.items():
+            if Fraction(c).denominator != 1:
+                return False
+            for a, e in mono:
+                if e < 0:
+                    return False
+                at = t.atoms[a]
+                if at.head == 'call' and at.extra and at.extra[0] in ('fn:len', 'fn:int', 'fn:searchsorted', 'fn:argmax', 'fn:argmin'):
+                    continue
+                if at.head == 'name' and isinstance(at.args[0], str) and at.args[0].startswith('@i'):
+                    continue
+                # attributes that hold a count in this code base (number of layers / levels / grid points / quadrature
+                # points): declared, not inferred
+                leaf = None
+                if at.head == 'attr' and isinstance(at.args[0], str):
+                    leaf = at.args[0].rsplit('.', 1)[-1]
+                elif at.head == 'getattr' and len(at.args) == 2 and isinstance(at.args[1], str):
+                    leaf = at.args[1]
+                if leaf in COUNT_ATTRS:
+                    continue
+                return False
+        return True
+
     def _alias_target(self, f):
         """X when the called name is a local bound to the bare global / class name X (`make = PickleCIA; make(a)`, or a
         parameter of an inlined helper that was handed the class): the call is a call of X"""
@@ -1330,6 +1360,15 @@ class Conv:
             kwn, kwv = ('axis',), [t.const(0)]
         # numeric normalisations
         if name in ERASED_CALLS and len(args) == 1 and not (getattr(self, 'keep_casts', False) and name == 'float'):
+            return args[0]
+        if name == 'bool' and recv is None and len(args) == 1 and not kw and args[0].single_atom() is not None and \
+                t.atoms[args[0].single_atom()].head in ('cmp', 'bool') or \
+                (name == 'bool' and recv is None and len(args) == 1 and not kw and args[0].single_atom() is not None and
+                 t.atoms[args[0].single_atom()].head == 'unop' and t.atoms[args[0].single_atom()].extra == 'Not'):
+            # bool() of a comparison / conjunction / negation is that truth value
+            return args[0]
+        if name == 'int' and recv is None and len(args) == 1 and not kw and self._integral(args[0]):
+            # int() of a count / an index is that count / index
             return args[0]
         if name == 'map' and recv is None and len(n.args) == 2 and not n.keywords and \
                 isinstance(n.args[0], (ast.Name, ast.Attribute)) and not any(isinstance(a, ast.Starred) for a in n.args):
